@@ -2144,6 +2144,7 @@ fn pl_oracle(ctx: &Ctx, c: &PlCase, case: &mut Case) -> Verdict {
 }
 
 pub fn run(ctx: &Ctx) {
+    run_fuzz_raw(ctx, fuzz_entry);
     ctx.rule("TFM side: a case is one byte string (header sweep: a base file with one of its twelve 16-bit header words set to a value; truncations and byte mutations of corpus fonts; size-consistent random files decoded from generated integers); PL side: one text (token-level mutations of corpus and generated property lists). Non-trivial = the input was rejected with a documented error or produced at least one warning; distinct by content (sweep/truncations: by construction).");
     ctx.assume("Outcome of tfm_to_pl is compared with an independent transcription of TFtoPL 2014 sections 20-21; where TFtoPL and the crate's documentation differ (ne = 256; empty character range with ec > 255; lf in 4..=5) every documented non-panicking outcome is accepted.");
     ctx.assume("A listed panic signature excuses a case only inside the input zone derived for it (D19: lf in 4..=5 and lf*4 <= len < 24; D20: all earlier header checks pass and the sizes sum past 32767); other listed signatures are matched by (file, message).");
@@ -2169,4 +2170,22 @@ pub fn run(ctx: &Ctx) {
     });
     let n = ctx.tier.pick(24_000, 500_000);
     run_generated(ctx, "pl_mutations", n, || pl_case_strategy(c.pl.len()), |p: &PlCase, case| pl_oracle(ctx, p, case));
+}
+
+
+/// Entry point shared by the libFuzzer target and the `fuzz_raw` replay sub-check: the first byte
+/// selects the reader (even: bytes as a .tfm file, odd: text as a .pl file).
+pub fn fuzz_entry(ctx: &Ctx, data: &[u8]) -> Verdict {
+    let Some((sel, rest)) = data.split_first() else { return Verdict::pass(false) };
+    let mut case = Case::default();
+    if sel % 2 == 0 {
+        tfm_case(ctx, rest, (*sel / 2) as u64, true, &mut case)
+    } else {
+        let text = String::from_utf8_lossy(rest).to_string();
+        let mut sink = Sink { case: Some(&mut case) };
+        match check_pl(ctx, &text, false, &mut sink) {
+            Ok(_) => Verdict::pass(true),
+            Err(v) => v,
+        }
+    }
 }
